@@ -2,7 +2,7 @@
 import ast
 import re
 
-from ..core import reaching_assign, AnalysisError, norm, short, walk_local, stale_loop_uses
+from ..core import parent_chain, reaching_assign, AnalysisError, norm, short, walk_local, stale_loop_uses
 from ..cfg import cfg_of, forward
 from . import register
 from ..inline import inlined_view
@@ -238,6 +238,22 @@ def check_c17(ctx, R):
                 keep_pred, keep_var, repl = n.test, n.body.id, n.orelse.value
             elif isinstance(n, ast.IfExp) and isinstance(n.body, ast.Constant) and isinstance(n.body.value, str) and isinstance(n.orelse, ast.Name):
                 keep_pred, keep_var, repl = ast.UnaryOp(op=ast.Not(), operand=n.test), n.orelse.id, n.body.value
+    def appended(stmts):
+        """the single `X.append(<e>)` a branch consists of -> <e>"""
+        if len(stmts) == 1 and isinstance(stmts[0], ast.Expr) and isinstance(stmts[0].value, ast.Call) and isinstance(stmts[0].value.func, ast.Attribute) \
+                and stmts[0].value.func.attr == "append" and len(stmts[0].value.args) == 1:
+            return stmts[0].value.args[0]
+        return None
+    if repl is None or keep_pred is None:
+        # pieces form: for ch in identifier: if <keep>(ch): pieces.append(ch) else: pieces.append("_")   …   "".join(pieces)
+        for lp in walk_local(fix.node):
+            if isinstance(lp, ast.For) and isinstance(lp.target, ast.Name) and len(lp.body) == 1 and isinstance(lp.body[0], ast.If) and lp.body[0].orelse:
+                i_ = lp.body[0]
+                a_, b_ = appended(i_.body), appended(i_.orelse)
+                if isinstance(a_, ast.Name) and a_.id == lp.target.id and isinstance(b_, ast.Constant) and isinstance(b_.value, str):
+                    keep_pred, keep_var, repl = i_.test, lp.target.id, b_.value
+                elif isinstance(b_, ast.Name) and b_.id == lp.target.id and isinstance(a_, ast.Constant) and isinstance(a_.value, str):
+                    keep_pred, keep_var, repl = ast.UnaryOp(op=ast.Not(), operand=i_.test), lp.target.id, a_.value
     if repl is None or keep_pred is None:
         raise AnalysisError("I1: cannot recognise the repair loop of _characters_fix")
     if repl in rb and repl in rba:
@@ -279,6 +295,25 @@ def check_c17(ctx, R):
                     pguard, prefix = ast.UnaryOp(op=ast.Not(), operand=n.test), [n.orelse[0].value.value]
                 else:
                     pguard, prefix = n.test, [n.body[0].value.value]
+    if pguard is None:
+        # pieces form: if <guard on identifier[0]>: pieces.append("&")   (no else), outside the repair loop
+        for n in walk_local(fix.node):
+            if isinstance(n, ast.If) and not n.orelse and "identifier[0]" in norm(n.test) and not any(isinstance(p_, (ast.For, ast.While)) for p_ in parent_chain(n)):
+                a_ = appended(n.body)
+                if isinstance(a_, ast.Constant) and isinstance(a_.value, str) and a_.value:
+                    pguard, prefix = n.test, [a_.value]
+    if pguard is None:
+        # pieces = [] if <first char fine> else ["&"]   (read as if / else by the loader)
+        for n in walk_local(fix.node):
+            if isinstance(n, ast.If) and len(n.body) == 1 and len(n.orelse) == 1 and all(
+                    isinstance(b, ast.Assign) and isinstance(b.targets[0], ast.Name) and isinstance(b.value, ast.List) for b in (n.body[0], n.orelse[0])) \
+                    and n.body[0].targets[0].id == n.orelse[0].targets[0].id:
+                a_, b_ = n.body[0].value.elts, n.orelse[0].value.elts
+                one = lambda es: len(es) == 1 and isinstance(es[0], ast.Constant) and isinstance(es[0].value, str) and es[0].value
+                if not a_ and one(b_):
+                    pguard, prefix = ast.UnaryOp(op=ast.Not(), operand=n.test), [b_[0].value]
+                elif not b_ and one(a_):
+                    pguard, prefix = n.test, [a_[0].value]
     if pguard is None:
         raise AnalysisError("I1: cannot find the guard of the prefix in _characters_fix")
     try:
@@ -457,6 +492,38 @@ def check_c17(ctx, R):
         else:
             R.bad("I3", "%s|ignores %s" % (cg.key, what.split()[0]), cg.loc(),
                   "_conflicts_good never looks at the %s: two siblings can be given the same identifier (the file then declares two objects under one name and is rejected on read)" % what)
+    # … and at each of them on its own: the identifier a sibling was given is consulted whether or not the sibling has a name
+    # (`taken = element.name or element.data.get("EDIF.identifier")` reads it for nameless siblings only)
+    def reads_identifier(x):
+        return (isinstance(x, ast.Subscript) and isinstance(x.slice, ast.Constant) and x.slice.value == "EDIF.identifier") or \
+            (isinstance(x, ast.Call) and isinstance(x.func, ast.Attribute) and x.func.attr == "get" and x.args and isinstance(x.args[0], ast.Constant)
+             and x.args[0].value == "EDIF.identifier")
+
+    def bare_name_read(e):
+        return isinstance(e, ast.Attribute) and e.attr == "name" or (isinstance(e, ast.Call) and isinstance(e.func, ast.Attribute) and e.func.attr == "get"
+                                                                      and e.args and isinstance(e.args[0], ast.Constant) and e.args[0].value == ".NAME")
+    id_reads = [x for x in walk_local(cg.node) if reads_identifier(x)]
+    shadowed = []
+    for x in id_reads:
+        prev = x
+        for p_ in parent_chain(x):
+            if isinstance(p_, ast.BoolOp) and isinstance(p_.op, ast.Or):
+                k_ = next((i for i, v in enumerate(p_.values) if v is prev or any(v is z for z in ast.walk(prev)) or any(prev is z for z in ast.walk(v))), None)
+                if k_ and any(bare_name_read(v) for v in p_.values[:k_]):
+                    shadowed.append(x)
+                    break
+            if isinstance(p_, ast.IfExp) and any(prev is z for z in ast.walk(p_.orelse)) and bare_name_read(p_.test):
+                shadowed.append(x)
+                break
+            if isinstance(p_, (ast.FunctionDef, ast.AsyncFunctionDef)):
+                break
+            prev = p_
+    if id_reads and len(shadowed) == len(id_reads):
+        R.bad("I3", "%s|identifier only for nameless siblings" % cg.key, cg.loc(shadowed[0]),
+              "_conflicts_good reads a sibling's EDIF.identifier only when the sibling has no name (`%s`): a named sibling whose identifier was changed by "
+              "the repair (`a.b` -> `a_b`) does not block the same identifier being given again" % short(getattr(shadowed[0], "_parent", shadowed[0]), 70))
+    elif id_reads:
+        R.ok("I3", "a sibling's identifier is consulted whether or not it has a name", cg.loc(id_reads[0]))
     R.count("candidate comparisons in _conflicts_good (I3)", ncmp)
     R.floor("candidate comparisons in _conflicts_good (I3)", 2)
     loops = [lp for lp in walk_local(cg.node) if isinstance(lp, ast.For)]
@@ -540,16 +607,50 @@ def _i4(ctx, R):
 _check_c17_base = check_c17
 
 
+def _i5(ctx, R):
+    """every identifier the exporter hands out went through make_valid — the only place where the candidate is compared with the
+    siblings' names and identifiers.  A shortcut (`rename = name` when the name is already legal) skips that comparison."""
+    R.rule("I5", "every value stored under 'EDIF.identifier' by the EDIF writer is the result of make_valid (legal form and sibling conflict test) on every path")
+    P = ctx.P
+    n = 0
+    # wherever the exporter keeps that bookkeeping: the composer class or the naming helper class
+    owners = [f0 for rel in ("spydrnet/composers/edif/composer.py", EN) for c in P.module(rel).classes.values() for f0 in c.all_funcs()]
+    for f0 in sorted(owners, key=lambda x: x.key):
+        f = inlined_view(P, f0, keep=("make_valid",))
+        for a in walk_local(f.node):
+            if not (isinstance(a, ast.Assign) and any(isinstance(t_, ast.Subscript) and isinstance(t_.slice, ast.Constant) and t_.slice.value == "EDIF.identifier"
+                                                       for t_ in a.targets)):
+                continue
+            n += 1
+
+            def from_make_valid(v, depth=0):
+                if isinstance(v, ast.Call) and isinstance(v.func, ast.Attribute) and v.func.attr == "make_valid":
+                    return True
+                if isinstance(v, ast.Name) and depth < 3:
+                    defs = [x.value for x in walk_local(f.node) if isinstance(x, ast.Assign) and any(isinstance(t, ast.Name) and t.id == v.id for t in x.targets)]
+                    return bool(defs) and all(from_make_valid(d, depth + 1) for d in defs)
+                return False
+            if from_make_valid(a.value):
+                R.ok("I5", "%s: %s" % (f.qualname, short(a, 50)), f.loc(a))
+            else:
+                R.bad("I5", "%s|identifier not from make_valid" % f.key, f.loc(a),
+                      "%s stores `%s` as the EDIF identifier on a path that does not go through make_valid: that identifier was never compared with the "
+                      "siblings' (case-insensitively), so two siblings can be written under one identifier and the file is rejected on read" % (f.qualname, short(a.value, 40)))
+    R.count("identifier assignments in the EDIF writer (I5)", n)
+    R.floor("identifier assignments in the EDIF writer (I5)", 1)
+
+
 @register("C17",
           "Static analysis of EdififyNames against the reader's identifier rule: I1 the writer's validity predicate and its repair are "
           "evaluated abstractly over the printable-ASCII domain (isalnum/isalpha/comparisons/boolean structure) and the reader's character "
           "class is read from its regular expressions — accept(writer) must be included in accept(reader) for the first and the body "
           "characters, and the repair's replacement character must be accepted; I2 the writer's length bound is within the reader's, and "
           "every path of the conflict repair that lengthens the identifier re-applies the length repair before recursing or returning; "
-          "I3 the conflict test compares case-folded values on both sides, scans every sibling (no break / early exit) and looks at both the names and the identifiers already given to siblings; I4 every element "
+          "I3 the conflict test compares case-folded values on both sides, scans every sibling (no break / early exit) and looks at both the names and the identifiers already given to siblings — the identifier whether or not the sibling has a name; I5 every value stored under 'EDIF.identifier' comes from make_valid on every path; I4 every element "
           "is made unique against the container it is listed in (no stale loop variable, sibling list = iterated container) and no sibling "
           "identifier is exempted from the test. Decides legality of the character set, the bound, the folding and the scope of the "
           "uniqueness test; termination/uniqueness of the _sdn_N_ search is not decided.")
 def check_c17_all(ctx, R):
     _check_c17_base(ctx, R)
     _i4(ctx, R)
+    _i5(ctx, R)
